@@ -352,6 +352,7 @@ def generate(seed, tier):
              const_kinds=("i", "i", "f", "b", "npi", "npf", "c"),
              const_values=(0, 1, 2, -1, -2, 3))
     g.extra_fields = extra_fields
+    g.allow_short = True
     ops = []
     nfam = r.randint(2, 4)
     names = []
